@@ -47,6 +47,7 @@ def run(rep, tier):
         climb(rep, c, sfx)
         lookup(rep, c, sfx)
         opentry(rep, c, sfx)
+        duplicates(rep, c, sfx)
 
 
 # ------------------------------------------------------------------ symbolic binding power
@@ -179,7 +180,9 @@ def powers(rep, c, sfx):
                 cond_txt = hirq.expr_text(cnd)
                 if kind(cnd) == "Binary" and cnd["op"] in ("<", ">"):
                     a, b = (cnd["l"], cnd["r"]) if cnd["op"] == "<" else (cnd["r"], cnd["l"])
-                    if rbp and hirq.local_id(a) == rbp[0] and kind(peel(b)) == "MethodCall" and peel(b).get("path", "").startswith(PM + "::"):
+                    if rbp and hirq.local_id(a) == rbp[0] and (
+                            (kind(peel(b)) == "MethodCall" and peel(b).get("path", "").startswith(PM + "::"))
+                            or (kind(peel(b)) == "Block" and str(peel(b).get("inlined", "")).startswith(PM + "::"))):
                         okc = True
                 break
 
@@ -404,6 +407,46 @@ def lookup(rep, c, sfx):
                             "%s::get binary-searches the operator table, but the constructor %s stores the table as "
                             "given: operators of an unsorted table are not found and the expression is silently "
                             "truncated at them" % (ty.split("::")[-1], k["name"]))
+
+
+def duplicates(rep, c, sfx):
+    r = rep.rule("C13.DUPLICATES" + sfx, 2,
+                 "a rule declared twice resolves alike in the two Pratt parsers: PrattParser::op registers with a map "
+                 "`insert` (the later declaration replaces the earlier), so ConstPrattParser::get must prefer later table "
+                 "entries - a scan that visits the table from the end, not the first match of a forward scan")
+    op = c.fn("pest::pratt_parser::PrattParser::op")
+    if op is None:
+        r.lost("PrattParser::op")
+        return
+    last_wins = any(kind(x) == "MethodCall" and x["m"] == "insert" for x in walk(op["body"]))
+    first_wins = any(kind(x) == "MethodCall" and x["m"] in ("or_insert", "or_insert_with", "entry") for x in walk(op["body"]))
+    r.instance("map-policy", where(op["body"]), "last declaration wins" if last_wins and not first_wins else
+               ("first declaration wins" if first_wins else "unknown"))
+    gets = [b for b in c.bodies if b.get("impl_self") == "pest::pratt_parser::ConstPrattParser" and b["name"] == "get"
+            and not b.get("impl_trait")]
+    if not gets:
+        r.note("no ConstPrattParser::get in this configuration")
+        r.instance("const-get:absent", "")
+        return
+    g = gets[0]
+    ms = [x["m"] for x in walk(g["body"]) if kind(x) == "MethodCall"]
+    dec = any(kind(x) == "AssignOp" and x.get("op") in ("-=", "-") for x in walk(g["body"]))
+    inc = any(kind(x) == "AssignOp" and x.get("op") in ("+=", "+") for x in walk(g["body"]))
+    rng = any(kind(x) == "Struct" and str(x.get("path", "")).startswith("core::ops::range::Range") for x in walk(g["body"])) \
+        or any(kind(x) == "Call" and "IntoIterator::into_iter" in str(callee(x)) for x in walk(g["body"]))
+    if any(m in ("rev", "rfind", "rposition", "next_back", "rfold", "last") for m in ms) or (dec and not inc):
+        direction = "from the end"
+    elif any(m in ("find", "position", "find_map", "any", "next") for m in ms) or inc or rng:
+        direction = "from the start"
+    else:
+        direction = "unknown"
+    r.instance("const-get:direction", where(g["body"]), direction)
+    if last_wins and not first_wins and direction == "from the start":
+        r.violation("const-get:direction", where(g["body"]),
+                    "ConstPrattParser::get returns the FIRST table entry of a rule, PrattParser keeps the LAST declaration: "
+                    "for the table `plus L, times L, plus L` the two parsers build different trees from `1+2*3`")
+    if direction == "unknown":
+        r.note("scan direction of ConstPrattParser::get not recognised; duplicate-declaration agreement not decided")
 
 
 def opentry(rep, c, sfx):
